@@ -25,7 +25,7 @@ RULE = ("billing models (fitted on generated monthly/bi-monthly reads; parameter
 ASSUMPTIONS = ["a calendar period is a local calendar month; bi-monthly bins are pairs of months anchored at the first month of the reporting data",
                "sums/means skip missing daily values; a period with no finite value may be reported as 0 or missing"]
 REQUIRED_REACH = {"agg.monthly.judged": 20, "agg.bimonthly.judged": 20, "clause.totals": 20, "arg.rejected": 40, "arg.accepted": 40,
-                  "rows.compared": 300, "without_observed": 3, "data.gas_months_with_zero_usage": 8}
+                  "rows.compared": 300, "without_observed": 3, "data.gas_months_with_zero_usage": 8, "history.data_object_used_by_another_model_before": 20}
 
 VIOL = []
 CUR = {}
@@ -166,6 +166,20 @@ def run_case(spec):
             I.reach("data.gas_months_with_zero_usage")
         CUR.update(start=start, days=n, with_observed=with_obs, gaps=gaps, gas=gas)
         data = em.BillingReportingData(df, is_electricity_data=not gas)
+        if k != 2:
+            # the same data object was used by ANOTHER billing model before (a portfolio run: several candidate models on one reporting set);
+            # what this model returns for it is its own
+            st_o = B.settings_dump("billing")
+            st_o["developer_mode"] = True
+            tc_o = B.draw_tc(rng)
+            m_other = em.BillingModel.from_dict(B.make_doc({"fw-su_sh_wi": dict(coefficients=B.draw_coefficients(rng, B.SHAPES[int(rng.integers(0, 7))], tc_o, edge_p=0.1),
+                                                                             temperature_constraints=tc_o, f_unc=float(rng.uniform(3, 9)))}, st_o, tz=tz))
+            for arg_o in ("monthly", "bimonthly", None):
+                try:
+                    m_other.predict(data, aggregation=arg_o, ignore_disqualification=True)
+                except Exception:
+                    pass
+            I.reach("history.data_object_used_by_another_model_before")
         frames = {}
         for arg in ACCEPT:
             mm_ = copy.deepcopy(m)
